@@ -331,6 +331,11 @@ static ssize_t _GD_WriteFieldCode(DIRFILE *D, FILE *stream, int me,
 
   ptr = _GD_StripCode(D, me, code, strip_flags);
 
+  if (ptr == NULL) { /* error already set */
+    dreturn("%i", -1);
+    return -1;
+  }
+
   len = _GD_StringEscapeise(stream, ptr, 0, permissive, standards);
 
   /* If a scalar field code could be interpreted as a number, we must force
@@ -472,7 +477,9 @@ static int _GD_FieldSpec(DIRFILE* D, FILE* stream, const gd_entry_t* E,
       goto WRITE_ERR;
     }
 
-    if (GD_WRITE_INFIELD(0, 0))
+    /* the target of an alias is a field name: it takes no representation
+     * suffix, not even the disambiguating ".z" */
+    if (GD_WRITE_INFIELD(0, GD_WFC_NAME))
       goto WRITE_ERR;
 
     if (fputc('\n', stream) == EOF)
@@ -852,13 +859,11 @@ static int WriteInclude(DIRFILE *D, int i, int j, size_t ns_offset,
       goto WRITE_ERR;
   }
 
-  /* An empty prefix must be written if there's a suffix, but no namespace */
+  /* The prefix belongs to the same token as the namespace.  An empty prefix
+   * must be written if there's a suffix, but no namespace */
   if (px || (sx && !ns)) {
-    if (fputc(' ', stream) == EOF || _GD_StringEscapeise(stream, px, 0,
-          permissive, D->standards) < 0)
-    {
+    if (_GD_StringEscapeise(stream, px, 0, permissive, D->standards) < 0)
       goto WRITE_ERR;
-    }
   }
 
   if (sx) {
@@ -1126,16 +1131,32 @@ static void _GD_FlushFragment(DIRFILE* D, int i, int permissive)
   /* REFERENCE is written at the end, because its effect can propagate
    * upwards.  In the WriteFieldCode call, early is always zero because the
    * REFERENCE directive appeared in DSV 6 */
-  if (permissive || D->standards >= 6)
-    if (D->fragment[i].ref_name != NULL) {
+  if (permissive || D->standards >= 6) {
+    const char *ref_name = D->fragment[i].ref_name;
+
+    /* An implicit reference field (the first RAW field met when the dirfile was
+     * parsed) must be made explicit in the root fragment: the order in which
+     * fields and /INCLUDEs are written differs from the order they were read
+     * in, so a different RAW field could otherwise come first next time. */
+    if (ref_name == NULL && i == 0 && D->reference_field != NULL) {
+      int j, found = 0;
+      for (j = 1; j < D->n_fragment; ++j)
+        if (D->fragment[j].ref_name != NULL)
+          found = 1;
+      if (!found)
+        ref_name = D->reference_field->field;
+    }
+
+    if (ref_name != NULL) {
       if (fputs("/REFERENCE ", stream) == EOF ||
-          _GD_WriteFieldCode(D, stream, i, D->fragment[i].ref_name, 0,
+          _GD_WriteFieldCode(D, stream, i, ref_name, 0,
             permissive, D->standards, GD_WFC_NAME) < 0 ||
           fputc('\n', stream) == EOF)
       {
         goto WRITE_ERR;
       }
     }
+  }
 
   /* That's all */
 #ifdef HAVE_FCHMOD
